@@ -87,6 +87,9 @@ type Vector struct {
 	// cells written by the specification (the root of the bag is the source) and - when it has no pruned branches - also
 	// built in memory with boc.NewCellExotic
 	Bag string `json:"bag"`
+	// KeyForms: per key, how the boc.BitString object handed to ProveKeyInHashmap is made (see mkKey); the key is a VALUE (its
+	// bits): the answer must not depend on it. Absent: the forms rotate with the vector and request numbers.
+	KeyForms []string `json:"kfs"`
 	// LibMade: the Merkle cell of the bag was made by the library itself (C->S: an earlier proof embedded below a new root)
 	LibMade bool `json:"libmade"`
 }
@@ -189,6 +192,49 @@ func viaBoc(c *boc.Cell) (*boc.Cell, error) {
 	return roots[0], nil
 }
 
+// KeyFormNames: the ways a key BitString is made. All of them hold exactly the key's bits, unread (BitsAvailableForRead =
+// key width, the precondition of ProveKeyInHashmap).
+var KeyFormNames = []string{"exact", "oversized", "cell-raw", "cell-read", "appended"}
+
+func mkKey(k string, form string, salt int) boc.BitString {
+	write := func(bs interface{ WriteBit(bool) error }) {
+		for _, ch := range k {
+			_ = bs.WriteBit(ch == '1')
+		}
+	}
+	switch form {
+	case "oversized": // capacity larger than the key
+		kb := boc.NewBitString(len(k) + []int{1, 7, 8, 9, 64, 300}[salt%6])
+		write(&kb)
+		return kb
+	case "cell-raw": // the bit string of a cell that holds the key (1023-bit buffer)
+		c := boc.NewCell()
+		write(c)
+		return c.RawBitString()
+	case "cell-read": // read out of a cell, after a few other bits (unaligned copy)
+		c := boc.NewCell()
+		pre := salt % 8
+		_ = c.WriteUint(uint64(salt), pre)
+		write(c)
+		_ = c.WriteUint(5, 3)
+		_ = c.Skip(pre)
+		kb, err := c.ReadBits(len(k))
+		if err != nil {
+			panic(err)
+		}
+		return kb
+	case "appended": // grown by Append
+		kb := boc.NewBitString(len(k))
+		write(&kb)
+		out := boc.NewBitString(len(k) / 2)
+		out.Append(kb)
+		return out
+	}
+	kb := boc.NewBitString(len(k))
+	write(&kb)
+	return kb
+}
+
 func safely(f func() error) (p string, err error) {
 	defer func() {
 		if r := recover(); r != nil {
@@ -210,6 +256,7 @@ type twoStep struct {
 	preread string
 	bag     string // the source is the root of this bag (trees with Merkle cells below the root)
 	libmade bool
+	kfs     []string
 }
 
 // readAll advances the read cursors of every cell of the DAG (about half of the bits, the first reference) and resets nothing.
@@ -302,6 +349,10 @@ func underProof(hexBag string) (*boc.Cell, error) {
 
 // proveKeys asks ONE prover for a proof of every key, in order; one segment: Reset, then a Key event per request.
 func proveKeys(w *ev.Writer, root *boc.Cell, n int, keys []string, src, mode string, vec int, exp []Exp, ts *twoStep) (proofs []string) {
+	var kfs []string
+	if ts != nil {
+		kfs = ts.kfs
+	}
 	reset(w, root, "dict", src, mode, vec, n, ts)
 	var prover *boc.MerkleProver
 	p, err := safely(func() error {
@@ -314,10 +365,14 @@ func proveKeys(w *ev.Writer, root *boc.Cell, n int, keys []string, src, mode str
 		return
 	}
 	for i, k := range keys {
-		q := ev.M{"k": "Key", "key": k, "err": "", "panic": "", "val": emptyTable, "proof": ""}
-		kb := boc.NewBitString(len(k))
-		for _, ch := range k {
-			_ = kb.WriteBit(ch == '1')
+		kf := KeyFormNames[(vec+i)%len(KeyFormNames)]
+		if len(kfs) == len(keys) {
+			kf = kfs[i]
+		}
+		q := ev.M{"k": "Key", "key": k, "kf": kf, "err": "", "panic": "", "val": emptyTable, "proof": ""}
+		kb := mkKey(k, kf, vec+3*i)
+		if kb.BitsAvailableForRead() != len(k) || kb.BinaryString() != k {
+			panic("c18: key object does not hold the key")
 		}
 		var val tlb.Any
 		var proof []byte
@@ -418,7 +473,7 @@ func run(w *ev.Writer, v *Vector) error {
 				v.Orig[i].R = []int{}
 			}
 		}
-		ts := &twoStep{orig: v.Orig, srcBoc: v.SrcBoc, preread: v.Preread}
+		ts := &twoStep{orig: v.Orig, srcBoc: v.SrcBoc, preread: v.Preread, kfs: v.KeyForms}
 		preread(root, v.Preread, v.N, v.Keys)
 		switch v.T {
 		case "dict":
@@ -485,11 +540,8 @@ func run(w *ev.Writer, v *Vector) error {
 		if err != nil {
 			return fmt.Errorf("vector %d: cannot build input (%s): %v", v.Vec, mode, err)
 		}
-		var ts *twoStep
-		if v.Preread != "" {
-			ts = &twoStep{preread: v.Preread}
-			preread(root, v.Preread, v.N, v.Keys)
-		}
+		ts := &twoStep{preread: v.Preread, kfs: v.KeyForms}
+		preread(root, v.Preread, v.N, v.Keys)
 		switch v.T {
 		case "dict":
 			proveKeys(w, root, v.N, v.Keys, v.Src, mode, v.Vec, v.Exp, ts)
